@@ -174,18 +174,21 @@ public:
     void setParticlePositions(const double pp[]) {
         std::copy_n(pp, num_dimensions * num_particles, particle_positions.begin());
         positions_initialized = true;
+        cache_initialized = false; // the cached values belong to the old positions
     }
     //! \brief Set the particle positions, vector variant.
     void setParticlePositions(const std::vector<double> &pp) {
         checkVarSize("ParticleSwarmState::setParticlePositions", "particle position", pp.size(), num_dimensions * num_particles);
         particle_positions = pp;
         positions_initialized = true;
+        cache_initialized = false; // the cached values belong to the old positions
     }
     //! \brief Set the particle positions, with a move.
     void setParticlePositions(std::vector<double> &&pp) {
         checkVarSize("ParticleSwarmState::setParticlePositions", "particle positions", pp.size(), num_dimensions * num_particles);
         particle_positions = std::move(pp);
         positions_initialized = true;
+        cache_initialized = false; // the cached values belong to the old positions
     }
     //! \brief Set the particle velocities.
     void setParticleVelocities(const double pv[]) {
